@@ -612,3 +612,21 @@ theorem ra_only_holder_publishes {chk : Nat → Nat → Bool} {v0 : Nat} (h0 : c
   · exact ⟨t, ts, hl, ((ra_invariant h0 h).t t).lock.1 (by simp [hpc, Pc.inCS])⟩
 
 end Woodpile.Props.C13
+
+namespace Woodpile.Props.C13
+open Woodpile.Abt
+
+/-- A completed `update` / `try_update` call that was given a VALID pair returned normally (a
+`Bool`; it did not panic) - so "`U` returned" in the end-to-end theorems is implied by "`U`
+completed and its voucher was valid". -/
+theorem valid_update_returns {chk : Nat → Nat → Bool} {hist : List (Nat × Nat)} {R : CallRec}
+    (hR : Mach.RecOK chk hist R) (b v : Nat) (hop : R.op = .update b v ∨ R.op = .tryUpdate b v)
+    (hv : chk b v = true) : ∃ r, R.res = .bool r := by
+  obtain ⟨_, _, h⟩ := hR
+  rcases hop with hop | hop <;> rw [hop] at h <;> cases hres : R.res <;> rw [hres] at h
+  all_goals first
+    | exact ⟨_, rfl⟩
+    | (simp at h; done)
+    | (simp only [hv] at h; cases h)
+
+end Woodpile.Props.C13
